@@ -2243,12 +2243,8 @@ impl Archive {
                 let mut crc_data = vec![0u8; expected_crc_table_size];
                 self.reader.read_exact(&mut crc_data)?;
 
-                // CRC table may be encrypted if the file is encrypted
-                // According to MPQ format, CRC table uses the same key as the offset table but offset by sector count
-                if file_info.is_encrypted() {
-                    let crc_key = key.wrapping_sub(1).wrapping_add(sector_count as u32);
-                    decrypt_file_data(&mut crc_data, crc_key);
-                }
+                // The checksum table is stored as is, also for encrypted files (the archive
+                // builder writes it that way): only offsets and sector data are encrypted.
 
                 let mut crcs = Vec::with_capacity(sector_count);
                 let mut cursor = std::io::Cursor::new(&crc_data);
@@ -2287,17 +2283,11 @@ impl Archive {
             let sector_end = sector_offsets[i + 1] as u64;
 
             if sector_end < sector_start {
-                // This can happen with corrupted or malformed archives
-                // Try to recover by using the expected sector size
-                log::warn!(
-                    "Invalid sector offsets detected: start={sector_start}, end={sector_end} for sector {i}. Attempting recovery."
-                );
-
-                // Skip this sector and continue with zeros
-                let remaining = file_info.file_size as usize - decompressed_data.len();
-                let expected_size = remaining.min(sector_size);
-                decompressed_data.extend(vec![0u8; expected_size]);
-                continue;
+                // Corrupted or malformed sector offset table. Substituting zeros for the
+                // sector would hand back wrong content silently.
+                return Err(Error::invalid_format(format!(
+                    "Invalid sector offsets for sector {i}: start={sector_start}, end={sector_end}"
+                )));
             }
 
             let sector_size_compressed = (sector_end - sector_start) as usize;
@@ -2334,14 +2324,6 @@ impl Archive {
                 decrypt_file_data(sector_data, sector_key);
             }
 
-            // Validate CRC if present - MUST be done AFTER decryption but BEFORE decompression
-            // Skip CRC validation for now due to decryption key issues in some archives
-            if let Some(ref _crcs) = sector_crcs {
-                // Temporarily disabled CRC validation
-                // TODO: Fix CRC decryption key calculation for proper validation
-                log::trace!("Skipping CRC validation for sector {i}");
-            }
-
             // Decompress sector
             let decompressed_sector = if file_info.is_compressed()
                 && sector_size_compressed < expected_size
@@ -2370,13 +2352,29 @@ impl Archive {
                         }
                     }
                 } else {
-                    log::warn!("Empty compressed sector data for sector {i}. Using zeros.");
-                    vec![0u8; expected_size]
+                    // An empty sector cannot hold `expected_size` bytes; zeros would be
+                    // wrong content handed back silently.
+                    return Err(Error::invalid_format(format!(
+                        "Empty compressed data for sector {i}"
+                    )));
                 }
             } else {
                 // Sector is not compressed
                 sector_data[..expected_size.min(sector_data.len())].to_vec()
             };
+
+            // Validate the sector checksum (ADLER32 of the uncompressed sector, as the
+            // archive builder computes it)
+            if let Some(ref crcs) = sector_crcs {
+                let actual_crc = adler2::adler32_slice(&decompressed_sector);
+                if actual_crc != crcs[i] {
+                    return Err(Error::ChecksumMismatch {
+                        file: file_info.filename.clone(),
+                        expected: crcs[i],
+                        actual: actual_crc,
+                    });
+                }
+            }
 
             decompressed_data.extend_from_slice(&decompressed_sector);
         }
